@@ -1,4 +1,5 @@
 import Driver.Codec
+import BioscrapeModel.Model.EntryPoint
 
 /-
 `modeldriver`: one JSON job per input line, one JSON answer per output line
@@ -227,6 +228,28 @@ def dispatch (op : String) (j : Json) : Except String Json :=
   | _ => throw s!"unknown op {op}"
 end
 
+open Bioscrape.Entry Bioscrape.Generated in
+/-- the entry-point model on one option combination. -/
+def jobEntry (j : Json) : Except String Json := do
+  let b (k : String) := getBoolD j k false
+  let vol ← match (getStrField j "volume").toOption.getD "off" with
+    | "off" => pure VolOpt.off
+    | "true" => pure VolOpt.flagTrue
+    | "number" => pure VolOpt.number
+    | "object" => pure VolOpt.object
+    | v => throw s!"bad volume option {v}"
+  let o : Bioscrape.Entry.Options :=
+    ⟨b "model", b "interface", b "stochastic", b "delay", b "safe", vol, b "dataframe"⟩
+  let species := getStrListD j "species"
+  match simulateModel o with
+  | .optionError m => return Json.mkObj [("outcome", "optionError"), ("msg", m)]
+  | .internalError m => return Json.mkObj [("outcome", "internalError"), ("msg", m)]
+  | .result c s i v n d =>
+    return Json.mkObj [("outcome", "result"), ("class", toString (repr c)), ("simulator", toString (repr s)),
+      ("interface", toString (repr i)), ("hasVolume", Json.bool v), ("named", Json.bool n), ("dataframe", Json.bool d),
+      ("timeAxis", Json.bool (storesTimeAxis c)),
+      ("columns", Json.arr ((columns species n v).map Json.str).toArray)]
+
 def handle (line : String) : Json :=
   match Json.parse line with
   | .error e => Json.mkObj [("error", Json.str s!"parse: {e}")]
@@ -234,7 +257,8 @@ def handle (line : String) : Json :=
     let r : Except String Json := do
       let op ← getStrField j "op"
       let num := (getStrField j "num").toOption.getD "float"
-      if num == "rat" then dispatch (α := Rat) op j else dispatch (α := Float) op j
+      if op == "entry" then jobEntry j
+      else if num == "rat" then dispatch (α := Rat) op j else dispatch (α := Float) op j
     match r with
     | .ok out => out
     | .error e => Json.mkObj [("error", Json.str e)]
